@@ -70,3 +70,7 @@ check("C13", "exploration", "exhaustive enumeration of package-pair topologies (
       "Schemas are generated per ordered pair of package paths (depth 0-3 over {a,b}) with every reference site x referenced kind, and all-at-once schemas with package-level cycles and well-known types; after import every resolved type hint and every rpc request / reply type must be the identical class object found (by marker) in the target package, and values must survive a round trip through the referencing field.",
       "Quick runs the all-at-once schemas and a seed-selected quarter of the 225 pairs; thorough enumerates all pairs (exhaustive) plus alias-collision shapes with a third path component.",
       "DESIGN.md 3/C13")
+check("C18", "translation_validation", "Hypothesis schema grammar x 6 option combinations, metamorphic comparison across configurations + descriptor validation",
+      "Each generated schema (and a fixed all-cardinality service schema) is compiled under the 3 x 2 supported option combinations; every variant must import, pass the C03 structural validation against protoc's descriptors, have the same marker-indexed structure and service description as the default variant, and encode PRNG-drawn values to the same bytes and JSON.",
+      "Programs are sampled; value trees come from a PRNG seeded by a Hypothesis-drawn integer (deterministic, replayable).",
+      "DESIGN.md 3/C18")
